@@ -4,6 +4,7 @@ CONSTANTS
   WSizes <- GenWSizes
   RSizes <- GenRSizes
   Vias <- GenVias
+  RVias <- GenRVias
   MaxOps = @@OPS@@
   Atomic = TRUE
 INVARIANT Inv
